@@ -4,6 +4,25 @@ From Verif.C18 Require Import Gen_Quote Model.
 Import ListNotations.
 Open Scope N_scope.
 
+Ltac leb_solve :=
+  repeat match goal with
+  | |- context [?a <=? ?b] =>
+    first [ replace (a <=? b) with true by (symmetry; apply N.leb_le; lia)
+          | replace (a <=? b) with false by (symmetry; apply N.leb_gt; lia) ]
+  end.
+Ltac eqb_solve :=
+  repeat match goal with
+  | |- context [?a =? ?b] =>
+    first [ replace (a =? b) with true by (symmetry; apply N.eqb_eq; lia)
+          | replace (a =? b) with false by (symmetry; apply N.eqb_neq; lia) ]
+  end.
+Ltac ltb_solve :=
+  repeat match goal with
+  | |- context [?a <? ?b] =>
+    first [ replace (a <? b) with true by (symmetry; apply N.ltb_lt; lia)
+          | replace (a <? b) with false by (symmetry; apply N.ltb_ge; lia) ]
+  end.
+
 Lemma eqb_neq_false : forall a b : N, a <> b -> (a =? b) = false.
 Proof. intros; now apply N.eqb_neq. Qed.
 
@@ -129,6 +148,39 @@ Proof.
       cbn. now rewrite <- app_assoc. }
     rewrite Hnp. rewrite <- app_comm_cons. rewrite IH; auto.
     intros pre E. apply (Hend (c :: pre)). cbn. now rewrite E.
+Qed.
+
+Lemma contains_cons : forall p c s, contains p (c :: s) = prefix p (c :: s) || contains p s.
+Proof.
+  intros p c s. unfold contains. rewrite find_sub_unfold.
+  destruct (prefix p (c :: s)); [reflexivity|]. cbn [orb].
+  destruct (find_sub p s) as [[b a]|]; reflexivity.
+Qed.
+
+
+Lemma prefix_app_l : forall p s t, prefix p s = true -> prefix p (s ++ t) = true.
+Proof.
+  induction p as [|a p IH]; intros s t H; [reflexivity|].
+  destruct s as [|b s]; [discriminate|]. cbn in *. apply andb_true_iff in H as [H1 H2].
+  now rewrite H1, IH.
+Qed.
+
+Lemma contains_app_l : forall p s t, contains p s = true -> contains p (s ++ t) = true.
+Proof.
+  intros p s t. induction s as [|c s IH]; intros H.
+  - unfold contains in *. rewrite find_sub_unfold in H. destruct (prefix p []) eqn:E; [|discriminate].
+    destruct p; [|discriminate]. rewrite find_sub_unfold. reflexivity.
+  - rewrite contains_cons in H. cbn [app]. rewrite contains_cons.
+    apply orb_true_iff in H as [H|H].
+    + change (c :: s ++ t) with ((c :: s) ++ t). now rewrite prefix_app_l.
+    + rewrite IH by auto. apply orb_true_r.
+Qed.
+
+Lemma contains_mid : forall p a b, contains p (a ++ p ++ b) = true.
+Proof.
+  intros p a b. induction a as [|c a IH].
+  - cbn [app]. unfold contains. rewrite find_sub_unfold, prefix_app. reflexivity.
+  - cbn [app]. rewrite contains_cons, IH. apply orb_true_r.
 Qed.
 
 (* ------------------------------------------------------------------ replace chains *)
